@@ -148,10 +148,9 @@ class BaseIncrementalFeatureImportance(BaseIncrementalExplainer):
             factor = sum(importance_values_list)
         else:
             raise NotImplementedError(f"The mode must be either 'sum', or 'delta' not '{mode}'.")
-        try:
-            return {feature: importance_value / factor for feature, importance_value in importance_values.items()}
-        except ZeroDivisionError:
+        if factor == 0:  # NumPy scalars do not raise a ZeroDivisionError but yield NaN/inf
             return {feature: 0.0 for feature, importance_value in importance_values.items()}
+        return {feature: importance_value / factor for feature, importance_value in importance_values.items()}
 
     def update_storage(self, x_i: dict, y_i: Optional[Any] = None):
         """Manually updates the data storage with the given observation.
